@@ -207,6 +207,34 @@ def _epochs(mk, case, canon):
     n = len(A.dataset)
     out = {"n": n, "tables": _tables(A, n), "len": [], "idx": [], "col0": None, "meta": [], "lenB": []}
     try:
+        if case.get("peek") is not None:
+            # history: take `peek` batches from an iterator, abandon it midway, put the epoch back as a
+            # user would; everything below must still be what a fresh loader delivers
+            for obj, src in ((A, A.batch_sampler), (B, B)):
+                it = iter(src)
+                try:
+                    for _ in range(case["peek"]):
+                        next(it)
+                except StopIteration:
+                    pass
+                del it
+                obj.epoch = e0
+        if case.get("inter"):
+            # two iterators of one batch sampler alive at once (epochs e0, e0+1) vs. one after the other
+            E, G = mk(e0), mk(e0)
+            seq = [[[int(i) for i in b] for b in E.batch_sampler] for _ in range(2)]
+            its = [iter(G.batch_sampler), iter(G.batch_sampler)]
+            got, live, turn = [[], []], [True, True], 0
+            while any(live):
+                if live[turn]:
+                    try:
+                        got[turn].append([int(i) for i in next(its[turn])])
+                    except StopIteration:
+                        live[turn] = False
+                turn = 1 - turn
+            if got != seq:
+                out["meta"].append("two interleaved iterators of one batch sampler deliver other batches than two "
+                                   "successive ones: %s vs %s" % (got, seq))
         cols = []
         for j in range(k + 1):
             out["len"].append(int(len(A)))
@@ -304,13 +332,34 @@ def run_bbs(case):
     b2s = dict(enumerate(case["b2s"]))
     s = BucketBatchSampler(list(case["sampler"]), i2b, b2s, case["drop"])
     try:
+        if case.get("peek") is not None:
+            # history: an iterator abandoned after `peek` batches must not influence the next one
+            it = iter(s)
+            try:
+                for _ in range(case["peek"]):
+                    next(it)
+            except StopIteration:
+                pass
+            del it
         first = [[int(i) for i in b] for b in s]
         second = [[int(i) for i in b] for b in s]
+        inter_same = True
+        if case.get("inter"):
+            its = [iter(s), iter(s)]
+            got, live, turn = [[], []], [True, True], 0
+            while any(live):
+                if live[turn]:
+                    try:
+                        got[turn].append([int(i) for i in next(its[turn])])
+                    except StopIteration:
+                        live[turn] = False
+                turn = 1 - turn
+            inter_same = got == [second, second]
     except RuntimeError:
         return {"err": "RuntimeError"}
     except Exception as e:
         return {"err": "other:" + exc_kind(e)}
-    return {"ok": first, "again_same": first == second}
+    return {"ok": first, "again_same": first == second and inter_same}
 
 
 def run_collate(case):
@@ -551,8 +600,8 @@ def bbs_spec_term(case, out):
     valid = all(case["b2s"][case["i2b"][i]] > 0 for i in case["sampler"])
     if "err" in out:
         return cb(not valid)
-    return (f"bbs_okb (tbl {cln(case['i2b'])}) (tbl {cln(case['b2s'])}) {cb(case['drop'])} "
-            f"{cln(case['sampler'])} {lln(out['ok'])}") if valid else "true"
+    return _all([f"bbs_okb (tbl {cln(case['i2b'])}) (tbl {cln(case['b2s'])}) {cb(case['drop'])} "
+                 f"{cln(case['sampler'])} {lln(out['ok'])}", cb(out.get("again_same", True))]) if valid else "true"
 
 
 def collate_terms(case, out, items):
@@ -616,7 +665,8 @@ def gen_spect(rng, big):
                 tokens_only=rng.random() < 0.5, bs=rng.randint(1, 5), nb=rng.choice([1, 2, 2, 3, 3, 4]),
                 dyn=rng.random() < 0.5, drop=rng.random() < 0.5, shuffle=rng.random() < 0.6,
                 seed=rng.randint(0, 10 ** 6), sort=rng.random() < 0.5, bf=rng.random() < 0.5,
-                su=rng.random() < 0.5, sa=rng.random() < 0.5, e0=rng.randint(0, 3), k=rng.randint(0, 2))
+                su=rng.random() < 0.5, sa=rng.random() < 0.5, e0=rng.randint(0, 3), k=rng.randint(0, 2),
+                peek=rng.choice([None, 0, 1, 1, 2, 3]), inter=rng.random() < 0.3)
 
 
 def gen_lang(rng, big):
@@ -625,7 +675,8 @@ def gen_lang(rng, big):
                 bs=rng.randint(1, 4), nb=rng.choice([1, 2, 2, 3, 4]), dyn=rng.random() < 0.5,
                 drop=rng.random() < 0.5, shuffle=rng.random() < 0.5, seed=rng.randint(0, 10 ** 6),
                 sort=rng.random() < 0.5, bf=rng.random() < 0.5, su=rng.random() < 0.4,
-                e0=rng.randint(0, 2), k=rng.randint(0, 1))
+                e0=rng.randint(0, 2), k=rng.randint(0, 1), peek=rng.choice([None, 0, 1, 1, 2, 3]),
+                inter=rng.random() < 0.3)
 
 
 def gen_cw(rng, big):
@@ -633,7 +684,8 @@ def gen_cw(rng, big):
     return dict(kind="cw", lens=gen_lens(rng, n, 4), F=rng.choice([1, 2]), alis=rng.random() < 0.6, refs=None, Wf=1,
                 bs=rng.randint(1, 4), drop=rng.random() < 0.5, left=rng.randint(0, 3), right=rng.randint(0, 3),
                 reverse=rng.random() < 0.5, su=rng.random() < 0.5, shuffle=rng.random() < 0.5,
-                seed=rng.randint(0, 10 ** 6), e0=rng.randint(0, 2), k=rng.randint(0, 1))
+                seed=rng.randint(0, 10 ** 6), e0=rng.randint(0, 2), k=rng.randint(0, 1),
+                peek=rng.choice([None, None, 1, 2]), inter=False)
 
 
 def gen_bbs(rng, big):
@@ -649,7 +701,8 @@ def gen_bbs(rng, big):
         rng.shuffle(sampler)
     elif r < 0.65 and n:  # a sub-sample (a distributed rank's share), or repeats
         sampler = [rng.randrange(n) for _ in range(rng.randint(0, n + 3))]
-    return dict(kind="bbs", sampler=sampler, i2b=i2b, b2s=b2s, drop=rng.random() < 0.5)
+    return dict(kind="bbs", sampler=sampler, i2b=i2b, b2s=b2s, drop=rng.random() < 0.5,
+                peek=rng.choice([None, 0, 1, 2, 3, 4, 5]), inter=rng.random() < 0.3)
 
 
 def gen_collate(rng, big):
@@ -705,17 +758,27 @@ def exhaustive_cases(chk):
                 cases.append(dict(kind="spect", lens=list(lens), F=1, alis=False, refs=None, Wf=1, tokens_only=True,
                                   bs=bs, nb=nb, dyn=dyn, drop=drop, shuffle=False, seed=0, sort=bool(count % 2),
                                   bf=bool((count // 2) % 2), su=bool((count // 4) % 2), sa=True, e0=0, k=0,
+                                  peek=(None, 0, 1, 2)[(count // 8) % 4] if nb > 1 else None, inter=False,
                                   stream="exhaustive"))
     for n in range(0, 6 if thorough else 5):
         for assign in itertools.product(range(2), repeat=n):
             for s0, s1, drop in itertools.product((1, 2, 3), (1, 2, 3), (False, True)):
                 cases.append(dict(kind="bbs", sampler=list(range(n)), i2b=list(assign), b2s=[s0, s1], drop=drop,
                                   stream="exhaustive"))
+    # history: every bucket assignment of 3..5 indices over 2 buckets, abandon the iterator after k batches
+    for n in range(3, 6):
+        for assign in itertools.product(range(2), repeat=n):
+            for (s0, s1), peek, drop in itertools.product(((2, 2), (2, 3), (3, 1)), (1, 2, 3), (False, True)):
+                if not thorough and (n + peek + s1 + sum(assign)) % 2:
+                    continue
+                cases.append(dict(kind="bbs", sampler=list(range(n)), i2b=list(assign), b2s=[s0, s1], drop=drop,
+                                  peek=peek, inter=(n + peek) % 3 == 0, stream="exhaustive-history"))
     chk.extra["exhaustive"] = thorough
     chk.extra["exhaustive_scope"] = (
         "SpectDataLoader on real directories: all length vectors over {0,1,2} with N<=%d (N=3 sliced 1/3 in quick), "
         "num_length_buckets 1..3, batch_size 1..2, size_batch_by_length, drop_last, sequential order; "
-        "BucketBatchSampler: all assignments of N<=%d indices to 2 buckets, sizes 1..3 each, drop_incomplete"
+        "BucketBatchSampler: all assignments of N<=%d indices to 2 buckets, sizes 1..3 each, drop_incomplete; history: "
+        "all assignments of 3..5 indices, an iterator abandoned after 1..3 batches, then a full pass (half in quick)"
         % (maxn, 5 if thorough else 4))
     return cases
 
@@ -861,7 +924,11 @@ def _shrink_cands(case):
             c = dict(case)
             c[key] = case[key] - 1
             yield c
-    for key in ("shuffle", "sort", "dyn", "drop", "alis", "reverse"):
+    if case.get("peek"):
+        c = dict(case)
+        c["peek"] = case["peek"] - 1
+        yield c
+    for key in ("shuffle", "sort", "dyn", "drop", "alis", "reverse", "inter"):
         if case.get(key) is True:
             c = dict(case)
             c[key] = False
@@ -905,7 +972,9 @@ def run(chk, cases=None):
         "with the same seed), len(), the index batches of k+1 successive epochs, the exposed idx2bucket/bucket2size and "
         "the collated tensors of the first epoch are compared with PV.C14.Model on NumPy's permutation for (seed, epoch); "
         "bbs = BucketBatchSampler on explicit maps; collate/lcollate/cwcollate/window = the public collate functions and "
-        "extract_window on synthetic tensors. Where model and code differ, where the code raises, and in the regions of "
+        "extract_window on synthetic tensors. History: before the recorded pass an iterator of the same sampler/loader is "
+        "abandoned after `peek` batches (epoch put back), and (`inter`) two iterators are advanced alternately; the model "
+        "starts every __iter__ from empty accumulators. Where model and code differ, where the code raises, and in the regions of "
         "the recorded defects the Spec.v checkers judge the code's output. "
         "non-trivial = at least two buckets actually occur (loaders), two buckets among >=3 samples (bbs), two "
         "different lengths (collate), an edge actually replicated (window)")
@@ -927,7 +996,7 @@ def run(chk, cases=None):
         chk.note_case(c, nontrivial(c, out), stream)
         chk.count("kind=" + c["kind"])
         chk.count("outcome=" + ("ok" if "ok" in out else "raise:" + out["err"]))
-        for key in ("nb", "bs", "dyn", "drop", "shuffle", "sort", "bf", "su", "sa", "tokens_only", "reverse", "has_alis", "has_ids"):
+        for key in ("nb", "bs", "dyn", "drop", "shuffle", "sort", "bf", "su", "sa", "tokens_only", "reverse", "has_alis", "has_ids", "peek", "inter"):
             if key in c:
                 chk.count("%s.%s=%s" % (c["kind"], key, c[key]))
         if "lens" in c:
